@@ -9,6 +9,9 @@ CHECKS = {
  "C01": ("exploration", "differential replay: every observable of the walked/replayed/reopened node vs a history-free node opened on canon(tip)+pool, after every op of random histories over generated block trees",
          "Runtime differential monitor over thousands of generated operations: held on the K histories explored (K, shapes and mechanisms reached are in the evidence); not a proof.",
          "Trusted: verifmem models leveldb atomicity; canon(B) is produced by the same Play code on a node without history (defects common to first-time play are left to C02/C03).", "DESIGN.md §3 C01"),
+ "C02": ("exploration", "conservation monitor: after every op of random histories (with hostile amount/sum/duplicate/flag variants interleaved) the raw UTXO table, reported total, balances and pending fees are compared with a statement-level UTXO model of chain(tip)+pool",
+         "Runtime monitor with an implementation-independent reference model over thousands of generated operations and hostile inputs; held on what was explored.",
+         "Trusted: the statement-level model (refmodel/state.go, ~150 lines); signatures and contract re-execution are out of its scope (C07, C09).", "DESIGN.md §3 C02"),
 }
 NOT_YET = "check not built yet in this session (work in progress; see DESIGN.md for the planned monitor)"
 ALL = ["C%02d" % i for i in range(1, 21)]
